@@ -21,6 +21,9 @@ class ContentNode(Node):
         self.text = text
 
     def __str__(self) -> str:
+        # Only the body of a raw block can contain markup delimiters.
+        if "{{" in self.text or "{%" in self.text:
+            return f"{{% raw %}}{self.text}{{% endraw %}}"
         return self.text
 
     def render_to_output(self, _: RenderContext, buffer: TextIO) -> int:
